@@ -199,13 +199,15 @@ pub fn subterms(t: &Sx, out: &mut Vec<Sx>) {
 /// insertion enumerates 120 x 120 variants (proven_proven_pre_shape) - finite, but minutes per case
 pub static BIG_SYMMETRY: std::sync::atomic::AtomicBool = std::sync::atomic::AtomicBool::new(true);
 
+fn rng_kind(x: u64) -> u64 { x % 2 }
+
 pub fn gen_history(rng: &mut Rng, justified: bool) -> (Vec<Sx>, Vec<Sx>, String) {
     let pool: Vec<u64> = (1..=rng.range(2, 4)).collect();
     let mut terms: Vec<Sx> = vec![];
     let mut ops: Vec<Sx> = vec![];
     let mut nadd = 0u64;
     let mut jn = 0u64;
-    let motif = rng.below(10);
+    let motif = rng.below(11);
     let mut skip_random = false;
     let mut add = |t: Sx, terms: &mut Vec<Sx>, ops: &mut Vec<Sx>, nadd: &mut u64| -> u64 {
         let k = match terms.iter().position(|x| *x == t) { Some(k) => k, None => { terms.push(t); terms.len() - 1 } };
@@ -427,6 +429,27 @@ pub fn gen_history(rng: &mut Rng, justified: bool) -> (Vec<Sx>, Vec<Sx>, String)
             add(rt(6, vec![null_app()], vec![t([5, 6, 7, 8])]), &mut terms, &mut ops, &mut nadd);
             skip_random = rng.chance(1, 2);
             "redundancy"
+        }
+        9 => { // a symmetry of a child that MOVES THE BOUND SLOT of a binder above it and permutes free slots as well (a rotation, or a double
+               // transposition): the binder term must not inherit the permutation of the free slots alone
+            let (v, ar) = *rng.pick(&[(1u64, 3usize), (2, 4)]);
+            let base: Vec<u64> = (1..=ar as u64).collect();
+            let leaf = |p: &Vec<u64>| rt(v, p.iter().map(|s| slot_arg(*s)).collect(), vec![]);
+            let mut sym_p = base.clone();
+            if ar == 3 || rng.chance(1, 2) { sym_p.rotate_left(1); } else { sym_p.swap(0, 1); sym_p.swap(2, 3); }
+            let bx = *rng.pick(&base);
+            let wrap = |t: Sx| match rng_kind(v + bx) { 0 => rt(8, vec![bind(bx, null_app())], vec![t]), _ => rt(10, vec![bind(bx, null_app()), null_app()], vec![t, rt(3, vec![], vec![])]) };
+            let late = rng.chance(1, 2);
+            let h0 = add(leaf(&base), &mut terms, &mut ops, &mut nadd);
+            let h1 = add(leaf(&sym_p), &mut terms, &mut ops, &mut nadd);
+            if !late { union(h0, h1, &mut ops, &mut jn); }
+            // the binder terms over every arrangement of the leaf's slots
+            let ps = perms_of(ar);
+            for p in ps.iter().take(24) { let q: Vec<u64> = p.iter().map(|i| base[*i]).collect(); add(wrap(leaf(&q)), &mut terms, &mut ops, &mut nadd); }
+            if late { union(h0, h1, &mut ops, &mut jn); }
+            add(rt(6, vec![null_app()], vec![wrap(leaf(&base))]), &mut terms, &mut ops, &mut nadd);
+            skip_random = rng.chance(1, 2);
+            "symmetry"
         }
         _ => "random",
     };
